@@ -69,7 +69,7 @@ impl Modulator for Lfo {
 		self.amplitude.update(dt, info);
 		self.offset.update(dt, info);
 		self.phase += dt * self.frequency.value();
-		self.phase %= 1.0;
+		self.phase = self.phase.rem_euclid(1.0);
 		self.value = self.offset.value() + self.amplitude.value() * self.waveform.value(self.phase);
 	}
 
